@@ -199,19 +199,23 @@ FlipProof == StmtProof(FlipStmt)
 FlipNeed == BpScratchNeed(2, 2)
 
 \* descriptors << kind, g, h, t, rid, p, x >>: x = scratch (verify: size; commit/prove: 0 = NULL, k+1 = k bytes) / mutation / bit / variant
+BigPair(g, h) == g + h > 8
 Cases ==
-       { << k, g, h, t, 1, 0, (IF k = "verify" THEN BigScr ELSE 100001) >> : k \in Kinds, g \in Sizes, h \in Sizes, t \in PatTriples }
+       \* honest statements: commit, prove, verify; all vector patterns on the small size pairs, three on the large ones
+       UNION { { << k, g, h, t, 1, 0, (IF k = "verify" THEN BigScr ELSE 100001) >> : k \in Kinds,
+                   t \in IF BigPair(g, h) THEN { T4, << 5, 5, 5 >>, << 6, 6, 4 >> } ELSE PatTriples } : g \in Sizes, h \in Sizes }
   \cup { << k, g, h, T4, rid, 0, BigScr >> : k \in Kinds, rid \in { 2, 3, 5 }, g \in { 1, 4 }, h \in { 1, 2 } }
        \* rho = 0: with an all-zero n the argument's equation holds although the challenge base is unusable
-  \cup { << "verify", g, h, t, 4, 0, BigScr >> : g \in Sizes, h \in Sizes, t \in { << 1, 4, 4 >>, T4 } }
-  \cup { << "prove", g, h, T4, 4, 0, BigScr >> : g \in { 1, 2 }, h \in { 1, 2 } }
+  \cup { << "verify", g, h, << 1, 4, 4 >>, 4, 0, BigScr >> : g \in Sizes, h \in Sizes }
+  \cup { << k, g, h, T4, 4, 0, BigScr >> : k \in { "prove", "verify" }, g \in { 1, 2 }, h \in { 1, 2 } }
        \* transcript prefixes across the SHA-256 block boundaries
   \cup { << k, 2, 1, T4, 1, p, BigScr >> : k \in { "prove", "verify" },
            p \in IF Thorough THEN 1..140 ELSE { 1, 2, 24, 55, 56, 57, 64, 65, 66, 120, 121, 128, 129 } }
        \* prover and commitment without scratch space and with useless ones; verifier around the need
   \cup { << k, g, h, T4, 1, 0, x >> : k \in { "commit", "prove" }, x \in { 0, 1, 101, 5001 }, g \in { 1, 2, 8 }, h \in { 1, 4 } }
-  \cup { << "verify", g, h, T4, 1, 0, (BpScratchNeed(g, h) + d) - 32 >> : d \in { 0, 16, 31, 32, 33, 48, 1032 }, g \in { 1, 4, 8 }, h \in { 1, 2, 8 } }
-  \cup { << "verify", g, h, T4, 1, 0, x >> : x \in { 0, 16, 32 }, g \in { 1, 8 }, h \in { 1, 8 } }
+  \cup { << "verify", g, h, T4, 1, 0, (BpScratchNeed(g, h) + d) - 32 >> : d \in { 0, 31, 32, 33, 1032 }, g \in { 1, 4 }, h \in { 1, 8 } }
+  \cup { << "verify", 8, 8, T4, 1, 0, (BpScratchNeed(8, 8) + d) - 32 >> : d \in { 31, 32 } }
+  \cup { << "verify", g, h, T4, 1, 0, x >> : x \in { 0, 16, 32 }, g \in { 1, 8 }, h \in { 1, 2 } }
   \cup { << "scr", 2, 2, T4, 1, 0, x >> : x \in 0..(FlipNeed + 17) }
        \* altered proofs and statements
   \cup { << "flip", 2, 2, T4, 1, 0, bit >> : bit \in 0..(8 * BpProofLen(2, 2) - 1) }
@@ -228,12 +232,16 @@ Cases ==
   \cup { << "gparse", 0, 0, T4, 1, 0, v >> : v \in { 1, 2, 3, 20 } }
   \cup (IF Thorough
         THEN      { << k, g, h, T4, 1, 0, BigScr >> : k \in Kinds, g \in AllSizes, h \in AllSizes }
+             \cup { << k, g, h, t, 1, 0, BigScr >> : k \in Kinds, g \in Sizes, h \in Sizes, t \in PatTriples }
              \cup { << k, gh[1], gh[2], t, 1, 0, BigScr >> : k \in Kinds, gh \in { << 64, 64 >>, << 16, 32 >>, << 1, 64 >>, << 64, 1 >> },
                                                               t \in { << 5, 5, 5 >>, << 6, 6, 4 >>, << 1, 1, 4 >> } }
              \cup { << "verify", 64, 64, T4, 1, 0, (BpScratchNeed(64, 64) + d) - 32 >> : d \in { 0, 31, 32 } }
+             \cup { << "verify", g, h, T4, 1, 0, (BpScratchNeed(g, h) + d) - 32 >> : d \in { 0, 16, 31, 32, 33, 48 }, g \in Sizes, h \in Sizes }
              \cup { << "verify", 64, 64, << 1, 4, 4 >>, 4, 0, BigScr >> }
+             \cup { << "verify", g, h, T4, 4, 0, BigScr >> : g \in Sizes, h \in Sizes }
              \cup { << "mut", 64, 64, T4, 1, 0, m >> : m \in { 1, 3, 6, 10, 16, 21, 28 } }
              \cup { << "mut", 16, 4, T4, 1, 0, m >> : m \in MutsAny \cup MutsRound \cup { 31, 32 } }
+             \cup { << "mut", 4, 2, T4, 1, 0, m >> : m \in MutsAny \cup MutsRound \cup { 31, 32 } }
              \cup { << "gparse", k, 0, T4, 1, 0, v >> : k \in { 16, 64, 256 }, v \in 1..20 }
         ELSE { })
 
@@ -250,13 +258,14 @@ Expand(d) ==
 
 -----------------------------------------------------------------------------
 \* design-level theorems, evaluated on every generated record
-\* completeness: the specified prover's proof has the specified length and satisfies the specified verifier
+\* the specified prover's proof has the specified shape; that it satisfies the specified verifier (completeness)
+\* is the "honest proofs verify" clause of InvVerify, evaluated on the verify record of the same statement
 ProveComplete(i, o) ==
   "proof" \in DOMAIN o =>
-    LET g == BpGensParse(i.gens)[2]  n == BpVec(i.nv)  l == BpVec(i.lv)  c == BpVec(i.cv)  rho == InRho(i)
-        C == BpCommit(SubSeq(g, 1, Len(n)), SubSeq(g, Len(n) + 1, Len(g)), n, l, c, SMul(rho, rho))
-    IN  /\ Len(o.proof) = BpProofLen(Len(n), Len(l))
-        /\ BpVerify(BpTranscript(InPre(i)), o.proof, rho, g, Len(n), c, C)
+    LET L == Len(o.proof) IN
+    /\ L = BpProofLen(Len(i.nv) \div 32, Len(i.lv) \div 32)
+    /\ Lt(FromBytesBE(SubSeq(o.proof, L - 63, L - 32)), N) /\ Lt(FromBytesBE(SubSeq(o.proof, L - 31, L)), N)
+    /\ \A k \in 1..((L - 64) \div 65) : o.proof[65 * (k - 1) + 1] <= 3
 \* the final equation and the round-by-round reduction of the paper decide alike (small sizes: the reduction is expensive)
 FoldAgrees(i, o) ==
   LET g == BpGensParse(i.gens)  c == BpVec(i.cv) IN
@@ -277,7 +286,7 @@ Spec == Init /\ [][Next]_vars
 
 InvProve == (phase = "done" /\ rec.e = "BpppProve") => ProveComplete(rec.in, rec.out)
 InvVerify == (phase = "done" /\ rec.e = "BpppVerify") =>
-               /\ FoldAgrees(rec.in, rec.out)
+               /\ (cur[1] = "flip" => cur[7] % 4 = 0) => FoldAgrees(rec.in, rec.out)
                /\ (cur[1] = "verify" /\ cur[5] # 4 /\ cur[7] >= BpScratchNeed(cur[2], cur[3])) => rec.out.ret = 1   \* honest proofs verify
                /\ (cur[1] \in { "mut", "flip" } \/ cur[5] = 4) => rec.out.ret = 0                                   \* altered ones and rho = 0 do not
                /\ (cur[1] = "scr") => (rec.out.ret = 1 <=> cur[7] >= FlipNeed)
